@@ -184,13 +184,26 @@ def civil_from_days(z):
     return y, m, d
 
 
-class _UTC:
+class tzinfo:
+    """Base class for zone objects (as datetime.tzinfo): subclasses implement utcoffset(dt) -> timedelta."""
+
+    def utcoffset(self, dt):
+        raise NotImplementedError
+
+
+class timezone(tzinfo):
+    """Fixed-offset zone, as datetime.timezone(timedelta)."""
+
+    utc = None           # set below
+
+    def __init__(self, offset):
+        self._offset = offset
+
+    def utcoffset(self, dt):
+        return self._offset
+
     def __repr__(self):
-        return "UTC"
-
-
-class _TimezoneNS:
-    utc = _UTC()
+        return "shim.timezone(%r us)" % (self._offset._us,)
 
 
 class timedelta:
@@ -249,8 +262,14 @@ class timedelta:
         return NotImplemented
 
 
+timezone.utc = timezone(timedelta(0))
+
+
 class datetime:
-    """Aware-or-naive UTC instant: integer microseconds since 1970-01-01T00:00:00Z."""
+    """Naive or aware date-time.  `_us` = microseconds since 1970-01-01T00:00:00 of the UTC instant (aware)
+    or of the wall clock (naive); the calendar fields are those of the wall clock in the object's own
+    zone, `_us + utcoffset`, exactly as for datetime.datetime.  Comparison and subtraction of two aware
+    values use the instants; mixing naive and aware raises TypeError as the C type does."""
 
     _now_us = 0          # set by the harness
     # True: .hour/.minute give the placeholder 0 (they only feed the concrete template
@@ -270,23 +289,51 @@ class datetime:
         assert tz is not None, "shim supports only fromtimestamp(ts, timezone.utc)"
         return cls(ts * US, tz)
 
+    def _off(self):
+        if self.tzinfo is None:
+            return 0
+        return self.tzinfo.utcoffset(self)._us
+
+    def _wall(self):
+        return self._us + self._off()
+
+    def utcoffset(self):
+        return None if self.tzinfo is None else self.tzinfo.utcoffset(self)
+
     def replace(self, tzinfo=None):
-        return datetime(self._us, tzinfo)
+        # keeps the wall-clock fields, attaches the new zone (the instant changes accordingly)
+        new = datetime(0, tzinfo)
+        new._us = self._wall() - new._off()
+        return new
+
+    def astimezone(self, tz):
+        assert self.tzinfo is not None, "shim: astimezone of a naive value is not modelled"
+        return datetime(self._us, tz)
+
+    def _cmp_ok(self, o):
+        if (self.tzinfo is None) != (o.tzinfo is None):
+            raise TypeError("can't compare offset-naive and offset-aware datetimes")
 
     def __lt__(self, o):
+        self._cmp_ok(o)
         return self._us < o._us
 
     def __le__(self, o):
+        self._cmp_ok(o)
         return self._us <= o._us
 
     def __gt__(self, o):
+        self._cmp_ok(o)
         return self._us > o._us
 
     def __ge__(self, o):
+        self._cmp_ok(o)
         return self._us >= o._us
 
     def __eq__(self, o):
-        return isinstance(o, datetime) and self._us == o._us
+        if not isinstance(o, datetime) or (self.tzinfo is None) != (o.tzinfo is None):
+            return False
+        return self._us == o._us
 
     def __ne__(self, o):
         return not self.__eq__(o)
@@ -296,6 +343,8 @@ class datetime:
 
     def __sub__(self, o):
         if isinstance(o, datetime):
+            if (self.tzinfo is None) != (o.tzinfo is None):
+                raise TypeError("can't subtract offset-naive and offset-aware datetimes")
             return timedelta(_us=self._us - o._us)
         if isinstance(o, timedelta):
             return datetime(self._us - o._us, self.tzinfo)
@@ -307,7 +356,7 @@ class datetime:
         return NotImplemented
 
     def _ymd(self):
-        return civil_from_days(self._us // DAY_US)
+        return civil_from_days(self._wall() // DAY_US)
 
     @property
     def year(self):
@@ -325,31 +374,32 @@ class datetime:
     def hour(self):
         if datetime._placeholder_tod:
             return 0
-        return (self._us // (3600 * US)) % 24
+        return (self._wall() // (3600 * US)) % 24
 
     @property
     def minute(self):
         if datetime._placeholder_tod:
             return 0
-        return (self._us // (60 * US)) % 60
+        return (self._wall() // (60 * US)) % 60
 
     @property
     def second(self):
-        return (self._us // US) % 60
+        return (self._wall() // US) % 60
 
     @property
     def microsecond(self):
-        return self._us % US
+        return self._wall() % US
 
     def weekday(self):
-        return (self._us // DAY_US + 3) % 7
+        return (self._wall() // DAY_US + 3) % 7
 
 
 class ShimModule:
     """Stands in for the `datetime` module inside tornado.locale."""
     datetime = datetime
     timedelta = timedelta
-    timezone = _TimezoneNS
+    timezone = timezone
+    tzinfo = tzinfo
 
 
 class Names:
@@ -373,10 +423,36 @@ def validate_against_real_datetime():
         for us_in_day in (0, 43200 * US + 123456, DAY_US - 1):
             us = dayno * DAY_US + us_in_day
             r = epoch + real.timedelta(microseconds=us)
-            s = datetime(us, _TimezoneNS.utc)
+            s = datetime(us, timezone.utc)
             assert (s.year, s.month, s.day, s.hour, s.minute, s.second, s.microsecond, s.weekday()) == \
                 (r.year, r.month, r.day, r.hour, r.minute, r.second, r.microsecond, r.weekday()), us
             n += 1
+    # aware values in non-UTC zones: fields, replace(tzinfo=), comparison, subtraction
+    for off_min in (-300, 330, 0, 765, -720):
+        rz = real.timezone(real.timedelta(minutes=off_min))
+        sz = timezone(timedelta(minutes=off_min))
+        for dayno in range(18250, 18400, 7):
+            for us_in_day in (0, 3 * 3600 * US + 5, 20 * 3600 * US + 59 * 60 * US + 999999):
+                us = dayno * DAY_US + us_in_day
+                r = (epoch + real.timedelta(microseconds=us)).astimezone(rz)
+                z = datetime(us, sz)
+                assert (z.year, z.month, z.day, z.hour, z.minute, z.second, z.microsecond, z.weekday()) == \
+                    (r.year, r.month, r.day, r.hour, r.minute, r.second, r.microsecond, r.weekday()), (us, off_min)
+                r2 = r.replace(tzinfo=real.timezone.utc)
+                z2 = z.replace(tzinfo=timezone.utc)
+                assert z2._us == (r2 - epoch) // real.timedelta(microseconds=1) and z2.hour == r2.hour
+                r3 = r - real.timedelta(minutes=480)
+                z3 = z - timedelta(minutes=480)
+                assert (z3.day, z3.hour, z3.minute) == (r3.day, r3.hour, r3.minute) and z3.tzinfo is sz
+                u = datetime(us + 7, timezone.utc)
+                ru = epoch + real.timedelta(microseconds=us + 7)
+                assert (u > z) == (ru > r) and (u - z)._us == (ru - r) // real.timedelta(microseconds=1)
+                n += 4
+    try:
+        datetime(0, None) > datetime(0, timezone.utc)
+        raise AssertionError("naive/aware comparison must raise")
+    except TypeError:
+        pass
     # timedelta normalisation for negative and positive differences
     for us in list(range(-3 * DAY_US, 3 * DAY_US, 7919 * 1000003 // 10)) + [-1, 0, 1, -DAY_US, DAY_US,
                                                                             -DAY_US - 1, DAY_US + 10 * US]:
